@@ -144,7 +144,8 @@ HistSNext(h, m, t, o) ==
   [joins |-> h.joins + (IF o.op = "Join" /\ o.res = "" THEN 1 ELSE 0),
    leaves |-> h.leaves + (IF o.op = "Leave" /\ o.res = "" THEN 1 ELSE 0)
                        + (IF o.op = "MT.Apply" THEN Cardinality({j \in 1..Len(o.cbs) : o.cbs[j][1] = "left"}) ELSE 0)
-                       + (IF o.op = "Reset" /\ o.res = "" THEN Cardinality(Occupied(m)) ELSE 0),   \* Reset sends everybody away
+                       \* Reset sends everybody away: whoever is gone afterwards counts as having left (C18 says nothing about Reset)
+                       + (IF o.op = "Reset" THEN Cardinality(Occupied(m)) - Cardinality(Occupied(t)) ELSE 0),
    track |-> TrackNext(h, m, t, o),
    \* Reset empties the table: the hand the last move set up is void, nobody "stays put" across it (no late-joiner
    \* tracking until the next successful move)
